@@ -30,6 +30,7 @@ TITLE = ["", "t", "a b", "<&\">", "\\\"q\\\"", "&quot;", "*e*", "t\nu", " lead",
 TEXT = ["x", "*e*", "`c`", "a ] b".replace(" ] ", " "), "[in]", "![i](j)", "\\]", "a\nb"]
 
 
+REF_LABELS = ["r", "r", "a\\\\", "a\\]b", "\\[x\\]", "a\\\\\\\\", "q\\\\ r\\\\", "*s*", "a\\*", "x\\\\\\]y", "é\\\\", "\\\\"]
 VALID_TITLES = ["", "", " 'T'", " \"U\"", "\n  'multi\n  line'", " \"first\\\nsecond\"", " 'a\\\nb\\\nc'", " (p\\\nq)", " \"esc \\\" q\"",
                 "\n\"t\\\n[z]: /phantom\"", " 'back\\\\'"]
 INVALID_TITLES = [" 'x\ny\\'", " \"unclosed\nline", " 'a' b"]
@@ -178,7 +179,11 @@ def run(ctx: Ctx) -> None:
         for bang in ("", "!"):
             tpart = (' "%s"' % title) if title else ""
             inl = "%s[%s](%s%s)\n" % (bang, text, dest, tpart)
-            ref = "%s[%s][r]\n\n[r]: %s%s\n" % (bang, text, dest, tpart)
+            # the label of the full reference form: plain, or ending in / holding backslash escapes (an escaped backslash before the
+            # closing bracket, escaped brackets inside) — the bracket that ends it is found by the inline label walk in the use and
+            # by the block rule's own scan in the definition, and the two must agree
+            rl = rng.choice(REF_LABELS)
+            ref = "%s[%s][%s]\n\n[%s]: %s%s\n" % (bang, text, rl, rl, dest, tpart)
             try:
                 a, b = md.render(inl), md.render(ref)
             except Exception:
